@@ -134,6 +134,18 @@ func main() {
 		resp := g1Expand(g1Req{Prop: os.Args[2], Tier: os.Args[3], Cfg: cfgI, Path: os.Args[5:]})
 		b, _ := json.MarshalIndent(resp, "", " ")
 		fmt.Println(string(b))
+	case "c12one": // debugging: c12one <cfg> <target> <cont> <batch>...
+		var seq []int
+		for _, a := range os.Args[5:] {
+			n, _ := strconv.Atoi(a)
+			seq = append(seq, n)
+		}
+		ci, _ := strconv.Atoi(os.Args[2])
+		tg, _ := strconv.Atoi(os.Args[3])
+		ct, _ := strconv.Atoi(os.Args[4])
+		res := c12Res{Outcomes: map[string]int{}}
+		v := c12One(c12Configs()[ci], seq, tg, ct, &res)
+		fmt.Println(v, res.Infra)
 	case "replay":
 		if len(os.Args) < 3 {
 			os.Exit(2)
